@@ -3,6 +3,7 @@ C19 helper lemmas: list sums, the local step relation, lock effects, invariant p
 -/
 import CobaVerif.Model.C19
 import CobaVerif.Generated.C19Consts
+import CobaVerif.Generated.C19Protocol
 
 namespace Coba.C19
 set_option linter.unusedSimpArgs false
@@ -2394,9 +2395,629 @@ theorem semaphore_zero_permits_counterexample' :
 
 
 
+/-! ### Phase 5: ghost clock -/
+
+def noRmvPc : Pc → Prop
+  | .rmChk _ _ _ => False | .rmAcqW _ _ => False | .rmRemove _ _ => False | .rmRelW _ => False | .rmHRelW _ => False
+  | _ => True
+
+def noRmvC (c : Caller) : Prop :=
+  (∀ ins ∈ c.cur, ins.isRmv = false) ∧ (∀ seg ∈ c.rest, ∀ ins ∈ seg, ins.isRmv = false) ∧ noRmvPc c.pc
+
+theorem noRmv_toUnwind (c : Caller) (h : ∀ seg ∈ c.rest, ∀ ins ∈ seg, ins.isRmv = false) : noRmvC (toUnwind c) := by
+  rcases toUnwind_eq c with hu | hu <;> rw [hu] <;> simp [noRmvC, noRmvPc] <;> exact h
+
+theorem lstep_noRmv {idx arr cache c ev a' ch' c'} (h : LStep idx arr cache c ev a' ch' c') (hc : noRmvC c) :
+    noRmvC c' ∧ (∀ k b, ev ≠ .crmv k b) := by
+  cases h
+  all_goals (refine ⟨?_, ?_⟩)
+  all_goals (first
+    | (intro k b; simp; done)
+    | (exfalso; simp [noRmvC, noRmvPc] at hc; done)
+    | exact noRmv_toUnwind _ hc.2.1
+    | (simp [noRmvC, noRmvPc, Instr.isRmv] at hc ⊢; done)
+    | (simp [noRmvC, noRmvPc, Instr.isRmv] at hc ⊢; grind))
+
+/-- a step that leaves the caller at a miss point: either the miss itself, or the caller was there already -/
+theorem lstep_miss {idx arr cache c ev a' ch' c'} (h : LStep idx arr cache c ev a' ch' c') {k : Nat}
+    (hm : c'.pc.missKey = some k) :
+    evPopKey ev = none ∧ c'.stack = c.stack ∧ ch' = cache ∧
+    ((evMiss ev = true ∧ cache k = none) ∨ (evMiss ev = false ∧ c.pc.missKey = some k)) := by
+  cases h
+  all_goals (try (rcases toUnwind_eq _ with hu | hu <;> rw [hu] at hm))
+  all_goals (simp [Pc.missKey, evMiss, evPopKey] at hm ⊢)
+  all_goals (try (first | assumption | (obtain ⟨rfl, _⟩ := hm; assumption) | (subst hm; assumption)))
+
+/-- the cache of a system without rmv only grows, and only at the key of a `cpop` -/
+theorem lstep_cache_mono {idx arr cache c ev a' ch' c'} (h : LStep idx arr cache c ev a' ch' c') (hc : noRmvC c)
+    (hp : pcOK cache c) :
+    (evPopKey ev = none ∧ ch' = cache) ∨ (∃ k v, evPopKey ev = some k ∧ cache k = none ∧ ch' = upd cache k (some v)) := by
+  cases h
+  all_goals (first
+    | exact Or.inl ⟨rfl, rfl⟩
+    | (right; simp [pcOK] at hp; exact ⟨_, _, rfl, hp, rfl⟩)
+    | (simp [noRmvC, noRmvPc] at hc))
+
+
+structure GInv (g : GSt) : Prop where
+  /-- a cached key was populated in the past -/
+  pop : ∀ k v, g.base.cache k = some v → g.tp k < g.clock
+  /-- a caller between its miss of `k` and the write lock of `k`: the miss is in the past, later than the populate of every
+  key of its with-stack, and earlier than the populate of `k` if `k` got cached meanwhile -/
+  miss : ∀ (j : Nat) (c : Caller), g.base.cs[j]? = some c → ∀ k, c.pc.missKey = some k →
+      g.tm j < g.clock ∧ (∀ k' ∈ c.stack, g.tp k' < g.tm j) ∧ (∀ v, g.base.cache k = some v → g.tm j < g.tp k)
+
+theorem gstep_iff {idx : Nat → Nat} {g g' : GSt} {i : Nat} {ev : Ev} :
+    gstep idx g i = some (ev, g') ↔ ∃ s', step idx g.base i = some (ev, s') ∧
+      g' = { base := s', clock := g.clock + 1,
+             tm := if evMiss ev then upd g.tm i g.clock else g.tm,
+             tp := match evPopKey ev with | some k => upd g.tp k g.clock | none => g.tp } := by
+  unfold gstep
+  cases hs : step idx g.base i with
+  | none => simp
+  | some r =>
+    obtain ⟨e, s1⟩ := r
+    constructor
+    · intro h; simp at h; obtain ⟨rfl, rfl⟩ := h; exact ⟨s1, rfl, rfl⟩
+    · rintro ⟨s', h1, rfl⟩; simp at h1; obtain ⟨rfl, rfl⟩ := h1; rfl
+
+theorem ginv_step {idx : Nat → Nat} {g g' : GSt} {i : Nat} {ev : Ev} (hI : Inv idx g.base)
+    (hN : ∀ (j : Nat) (c : Caller), g.base.cs[j]? = some c → noRmvC c) (hG : GInv g)
+    (h : gstep idx g i = some (ev, g')) : GInv g' := by
+  obtain ⟨s', hs, rfl⟩ := gstep_iff.mp h
+  obtain ⟨c, a', ch', c', hi, hL, rfl⟩ := step_lstep hI hs
+  have hmono := lstep_cache_mono hL (hN i c hi) (hI.pc i c hi)
+  constructor
+  · intro k v hkv
+    simp only at hkv ⊢
+    rcases hmono with ⟨hpk, rfl⟩ | ⟨k0, v0, hpk, hnone, rfl⟩
+    · simp only [hpk]; have := hG.pop k v hkv; omega
+    · simp only [hpk, upd] at hkv ⊢
+      split
+      · omega
+      · rename_i hne; simp [hne] at hkv; have := hG.pop k v hkv; omega
+  · intro j d hj k hm
+    simp only at hj ⊢
+    rcases getElem?_set_cases hj with ⟨rfl, rfl⟩ | ⟨hne, hj0⟩
+    · obtain ⟨hpk, hst, rfl, hcase⟩ := lstep_miss hL hm
+      simp only [hpk]
+      rcases hcase with ⟨hmiss, hnone⟩ | ⟨hmiss, hm0⟩
+      · simp only [hmiss, upd, if_true]
+        refine ⟨by omega, ?_, ?_⟩
+        · intro k' hk'
+          rw [hst] at hk'
+          obtain ⟨v, hv⟩ := Option.isSome_iff_exists.mp (hI.stack j c hi k' hk')
+          exact hG.pop k' v hv
+        · intro v hv; simp [hnone] at hv
+      · obtain ⟨h1, h2, h3⟩ := hG.miss j c hi k hm0
+        simp only [hmiss]
+        exact ⟨by simp; omega, by rw [hst]; simpa using h2, by simpa using h3⟩
+    · obtain ⟨h1, h2, h3⟩ := hG.miss j d hj0 k hm
+      have htm : (if evMiss ev then upd g.tm i g.clock else g.tm) j = g.tm j := by
+        split <;> simp [upd, hne]
+      rw [htm]
+      rcases hmono with ⟨hpk, rfl⟩ | ⟨k0, v0, hpk, hnone, rfl⟩
+      · simp only [hpk]; exact ⟨by omega, h2, h3⟩
+      · simp only [hpk, upd]
+        refine ⟨by omega, ?_, ?_⟩
+        · intro k' hk'
+          have hc := hI.stack j d hj0 k' hk'
+          have hne' : k' ≠ k0 := by rintro rfl; simp [hnone] at hc
+          simp [hne']; exact h2 k' hk'
+        · intro v hv
+          split
+          · exact h1
+          · rename_i hkk; simp [hkk] at hv; exact h3 v hv
+
+
+theorem ginv_init (progs : List (List (List Instr))) : GInv (ginit progs) := by
+  constructor
+  · intro k v h; simp [ginit, init] at h
+  · intro j c hj k hm
+    have := List.mem_of_getElem? hj
+    simp [ginit, init] at this
+    obtain ⟨p, _, rfl⟩ := this
+    simp [mkCaller, mkCallerT, Pc.missKey] at hm
+
+theorem noRmv_reachable {idx : Nat → Nat} {progs : List (List (List Instr))} {s : St}
+    (hP : ∀ p ∈ progs, GetSetOnly p = true) (h : Reachable idx progs s) :
+    ∀ (j : Nat) (c : Caller), s.cs[j]? = some c → noRmvC c := by
+  induction h with
+  | init =>
+    intro j c hj
+    have := List.mem_of_getElem? hj
+    simp [init] at this
+    obtain ⟨p, hpm, rfl⟩ := this
+    have := hP p hpm
+    simp [GetSetOnly] at this
+    simp [noRmvC, noRmvPc, mkCaller, mkCallerT]
+    exact this
+  | step hr hs ih =>
+    rename_i s0 s1 i ev
+    have hI := inv_reachable hr
+    obtain ⟨c, a', ch', c', hi, hL, rfl⟩ := step_lstep hI hs
+    intro j d hj
+    rcases getElem?_set_cases hj with ⟨rfl, rfl⟩ | ⟨_, hj0⟩
+    · exact (lstep_noRmv hL (ih j c hi)).1
+    · exact ih j d hj0
+
+/-- the instrumented system takes exactly the steps of the plain one -/
+theorem ghost_projects' {idx : Nat → Nat} {progs : List (List (List Instr))} {g : GSt}
+    (h : GReachable idx progs g) : Reachable idx progs g.base := by
+  induction h with
+  | init => exact Reachable.init
+  | step _ hs ih =>
+    obtain ⟨s', hs', rfl⟩ := gstep_iff.mp hs
+    exact Reachable.step ih hs'
+
+theorem ghost_lifts' {idx : Nat → Nat} {progs : List (List (List Instr))} {s : St}
+    (h : Reachable idx progs s) : ∃ g, GReachable idx progs g ∧ g.base = s := by
+  induction h with
+  | init => exact ⟨ginit progs, GReachable.init, rfl⟩
+  | step _ hs ih =>
+    obtain ⟨g, hg, rfl⟩ := ih
+    exact ⟨_, GReachable.step hg (gstep_iff.mpr ⟨_, hs, rfl⟩), rfl⟩
+
+theorem ginv_reachable {idx : Nat → Nat} {progs : List (List (List Instr))} {g : GSt}
+    (hP : ∀ p ∈ progs, GetSetOnly p = true) (h : GReachable idx progs g) : GInv g := by
+  induction h with
+  | init => exact ginv_init progs
+  | step hr hs ih =>
+    have hb := ghost_projects' hr
+    exact ginv_step (inv_reachable hb) (noRmv_reachable hP hb) ih hs
+
+def Pc.key? : Pc → Option Nat
+  | .idle => none | .exRel => none | .unwind => none
+  | .gsAcqR k _ => some k | .gsChk1 k _ => some k | .gsGet1 k => some k | .gsRelR k _ => some k | .gsAcqW k _ => some k
+  | .gsChk2 k _ => some k | .gsSwA k => some k | .gsGet2 k => some k | .gsPop k _ => some k | .gsPopW k _ => some k
+  | .gsSwB k _ => some k | .gsEnter k _ => some k | .gsHRelR k => some k | .gsHRelW k => some k
+  | .rmChk k _ _ => some k | .rmAcqW k _ => some k | .rmRemove k _ => some k | .rmRelW k => some k | .rmHRelW k => some k
+
+/-- every key the caller still mentions (program, operation in flight, with-stack) satisfies `K` -/
+def keysC (K : Nat → Prop) (c : Caller) : Prop :=
+  (∀ ins ∈ c.cur, ∀ k, ins.key? = some k → K k) ∧ (∀ seg ∈ c.rest, ∀ ins ∈ seg, ∀ k, ins.key? = some k → K k) ∧
+  (∀ k ∈ c.stack, K k) ∧ (∀ k, c.pc.key? = some k → K k)
+
+theorem keys_toUnwind (K : Nat → Prop) (c : Caller) (h : ∀ seg ∈ c.rest, ∀ ins ∈ seg, ∀ k, ins.key? = some k → K k)
+    (hs : ∀ k ∈ c.stack, K k) : keysC K (toUnwind c) := by
+  rcases toUnwind_eq c with hu | hu <;> rw [hu] <;> simp [keysC, Pc.key?] <;> exact ⟨h, hs⟩
+
+theorem lstep_keys {K : Nat → Prop} {idx arr cache c ev a' ch' c'} (h : LStep idx arr cache c ev a' ch' c') (hc : keysC K c) :
+    keysC K c' := by
+  cases h
+  all_goals (first
+    | (exact keys_toUnwind K _ hc.2.1 hc.2.2.1)
+    | (exact keys_toUnwind K _ hc.2.1 (fun k hk => hc.2.2.1 k (List.mem_cons_of_mem _ hk)))
+    | (simp [keysC, Pc.key?, Instr.key?] at hc ⊢; done)
+    | (simp [keysC, Pc.key?, Instr.key?] at hc ⊢; grind))
+
+theorem keys_reachable {K : Nat → Prop} {idx : Nat → Nat} {progs : List (List (List Instr))} {s : St}
+    (hP : ∀ p ∈ progs, ∀ seg ∈ p, ∀ ins ∈ seg, ∀ k, ins.key? = some k → K k) (h : Reachable idx progs s) :
+    ∀ (j : Nat) (c : Caller), s.cs[j]? = some c → keysC K c := by
+  induction h with
+  | init =>
+    intro j c hj
+    have := List.mem_of_getElem? hj
+    simp [init] at this
+    obtain ⟨p, hpm, rfl⟩ := this
+    simp [keysC, Pc.key?, mkCaller, mkCallerT]
+    exact hP p hpm
+  | step hr hs ih =>
+    rename_i s0 s1 i ev
+    have hI := inv_reachable hr
+    obtain ⟨c, a', ch', c', hi, hL, rfl⟩ := step_lstep hI hs
+    intro j d hj
+    rcases getElem?_set_cases hj with ⟨rfl, rfl⟩ | ⟨_, hj0⟩
+    · exact lstep_keys hL (ih j c hi)
+    · exact ih j d hj0
+
+theorem collisionFree_inj {idx : Nat → Nat} {progs : List (List (List Instr))} (h : CollisionFree idx progs = true) :
+    ∀ a b, a ∈ progKeys progs → b ∈ progKeys progs → idx a = idx b → a = b := by
+  intro a b ha hb hab
+  simp only [CollisionFree, List.all_eq_true] at h
+  have := h a ha b hb
+  simpa [hab] using this
+
+theorem progKeys_mem {progs : List (List (List Instr))} :
+    ∀ p ∈ progs, ∀ seg ∈ p, ∀ ins ∈ seg, ∀ k, ins.key? = some k → k ∈ progKeys progs := by
+  intro p hp seg hseg ins hins k hk
+  simp only [progKeys, List.mem_flatMap, List.mem_filterMap]
+  exact ⟨p, hp, seg, hseg, ins, hins, hk⟩
+
+/-- clock rank of a caller: the time of its miss while it waits for a write lock -/
+def gRank (g : GSt) (j : Nat) : Nat :=
+  match g.base.cs[j]? with
+  | some c => (match c.pc with | .gsAcqW _ _ => g.tm j | _ => g.clock + 1)
+  | none => 0
+
+theorem wantW_miss {c : Caller} {k : Nat} (hN : noRmvC c) (h : c.pc.wantW = some k) : ∃ gt, c.pc = .gsAcqW k gt := by
+  rcases c with ⟨pc, cur, rest, stack, book, tn⟩
+  cases pc <;> simp [Pc.wantW] at h
+  · subst h; exact ⟨_, rfl⟩
+  · simp [noRmvC, noRmvPc] at hN
+
+/-- along a wait-for edge whose target is itself waiting, the miss time strictly increases -/
+theorem ghost_edge_lt {idx : Nat → Nat} {g : GSt} {K : Nat → Prop} (hinj : ∀ a b, K a → K b → idx a = idx b → a = b)
+    (hK : ∀ (j : Nat) (c : Caller), g.base.cs[j]? = some c → keysC K c) (hI : Inv idx g.base)
+    (hN : ∀ (j : Nat) (c : Caller), g.base.cs[j]? = some c → noRmvC c) (hG : GInv g)
+    {i j m : Nat} (hij : waitsFor idx g.base i j = true) (hjm : waitsFor idx g.base j m = true) :
+    gRank g i < gRank g j := by
+  obtain ⟨ci, cj, hi, hj⟩ := waitsFor_callers hij
+  obtain ⟨_, cm, hj', hm⟩ := waitsFor_callers hjm
+  rw [hj] at hj'; cases hj'
+  have hjm' := hjm
+  simp only [waitsFor, hj, hm, Bool.or_eq_true] at hjm'
+  have hNj := hN j cj hj
+  have key : ∀ (hr : cj.pc.readKey = none) (hw : cj.pc.writeKey = none),
+      ∃ ki, gRank g i = g.tm i ∧ g.tm i < g.clock ∧ ki ∈ cj.stack ∧ g.tm i < g.tp ki := by
+    intro hr hw
+    obtain ⟨ki, hwi, k', hk', hkk⟩ := edge_holder hi hj hij hr hw
+    obtain ⟨gt, hpc⟩ := wantW_miss (hN i ci hi) hwi
+    have := hinj k' ki ((hK j cj hj).2.2.1 k' hk') ((hK i ci hi).2.2.2 ki (by simp [hpc, Pc.key?])) hkk; subst this
+    obtain ⟨h1, _, h3⟩ := hG.miss i ci hi k' (by simp [hpc, Pc.missKey])
+    obtain ⟨v, hv⟩ := Option.isSome_iff_exists.mp (hI.stack j cj hj k' hk')
+    exact ⟨k', by simp [gRank, hi, hpc], h1, hk', h3 v hv⟩
+  rcases cj with ⟨pcj, curj, restj, stackj, bookj, tnj⟩
+  cases pcj <;> simp [Pc.wantW, Pc.wantR] at hjm'
+  · obtain ⟨ki, hr, h1, _, _⟩ := key rfl rfl
+    rw [hr]; simp [gRank, hj]; omega
+  · rename_i kj gt
+    obtain ⟨ki, hr, h1, hk, h3⟩ := key rfl rfl
+    obtain ⟨_, h2, _⟩ := hG.miss j _ hj kj (by simp [Pc.missKey])
+    have := h2 ki hk
+    rw [hr]; simp [gRank, hj]; omega
+  · simp [noRmvC, noRmvPc] at hNj
+
+theorem ghost_path_lt {idx : Nat → Nat} {g : GSt} {K : Nat → Prop} (hinj : ∀ a b, K a → K b → idx a = idx b → a = b)
+    (hK : ∀ (j : Nat) (c : Caller), g.base.cs[j]? = some c → keysC K c) (hI : Inv idx g.base)
+    (hN : ∀ (j : Nat) (c : Caller), g.base.cs[j]? = some c → noRmvC c) (hG : GInv g) {i j : Nat}
+    (hp : WaitPath idx g.base i j) : ∀ m, waitsFor idx g.base j m = true → gRank g i < gRank g j := by
+  induction hp with
+  | one e => intro m hjm; exact ghost_edge_lt hinj hK hI hN hG e hjm
+  | cons e p ih =>
+    rename_i a b c
+    intro m hjm
+    have hbout : ∃ m', waitsFor idx g.base b m' = true := by
+      cases p with
+      | one e' => exact ⟨_, e'⟩
+      | cons e' _ => exact ⟨_, e'⟩
+    obtain ⟨m', hbm⟩ := hbout
+    have h1 := ghost_edge_lt hinj hK hI hN hG e hbm
+    have h2 := ih m hjm
+    omega
+
+theorem ghost_no_cycle {idx : Nat → Nat} {progs : List (List (List Instr))} {g : GSt}
+    (hcf : CollisionFree idx progs = true) (hP : ∀ p ∈ progs, GetSetOnly p = true)
+    (h : GReachable idx progs g) (i : Nat) : ¬ WaitPath idx g.base i i := by
+  intro hp
+  have hb := ghost_projects' h
+  have hout : ∃ m, waitsFor idx g.base i m = true := by
+    cases hp with
+    | one e => exact ⟨_, e⟩
+    | cons e _ => exact ⟨_, e⟩
+  obtain ⟨m, him⟩ := hout
+  have := ghost_path_lt (collisionFree_inj hcf) (keys_reachable progKeys_mem hb) (inv_reachable hb) (noRmv_reachable hP hb) (ginv_reachable hP h) hp m him
+  omega
+
+/-- goal 3 of phase 4: get_set-only programs on collision-free keys never have a wait-for cycle -/
+theorem no_wait_cycle_getset_only' {idx : Nat → Nat} {progs : List (List (List Instr))} {s : St}
+    (hcf : CollisionFree idx progs = true) (hP : ∀ p ∈ progs, GetSetOnly p = true)
+    (h : Reachable idx progs s) (i : Nat) : ¬ WaitPath idx s i i := by
+  obtain ⟨g, hg, rfl⟩ := ghost_lifts' h
+  exact ghost_no_cycle hcf hP hg i
+
+theorem deadlock_free_getset_only' {idx : Nat → Nat} {progs : List (List (List Instr))} {s : St}
+    (hcf : CollisionFree idx progs = true) (hP : ∀ p ∈ progs, GetSetOnly p = true)
+    (h : Reachable idx progs s) : s.deadlocked idx = false := by
+  cases hd : s.deadlocked idx with
+  | false => rfl
+  | true =>
+    obtain ⟨i, hc⟩ := deadlock_has_cycle' h hd
+    exact absurd hc (no_wait_cycle_getset_only' hcf hP h i)
+
+
+theorem deadlock_free_getset_only_step' {idx : Nat → Nat} {progs : List (List (List Instr))} {s : St}
+    (hcf : CollisionFree idx progs = true) (hP : ∀ p ∈ progs, GetSetOnly p = true)
+    (h : Reachable idx progs s) (hnt : s.allTerminal = false) :
+    ∃ i ev s', step idx s i = some (ev, s') ∧ ev ≠ .spin := by
+  refine Classical.byContradiction (fun hno => ?_)
+  have hall : ∀ i ev s', step idx s i = some (ev, s') → ev = .spin := by
+    intro i ev s' hs
+    refine Classical.byContradiction (fun hne => hno ⟨i, ev, s', hs, hne⟩)
+  have hd := deadlocked_iff.mpr ⟨hnt, hall⟩
+  have := deadlock_free_getset_only' hcf hP h
+  rw [hd] at this; cases this
+
+theorem fair_termination_getset_only' {idx : Nat → Nat} {progs : List (List (List Instr))}
+    (hcf : CollisionFree idx progs = true) (hP : ∀ p ∈ progs, GetSetOnly p = true)
+    (σ : Nat → Nat) (hfair : FairSched progs.length σ) :
+    ∃ n, ∀ m, n ≤ m → (runN idx (init progs) σ m).allTerminal = true := by
+  obtain ⟨n, hn⟩ := fair_termination_core (Reachable idx progs) (fun s i ev s' h hs => Reachable.step h hs)
+    (fun s h => inv_reachable h) (fun s h hnt => deadlock_free_getset_only_step' hcf hP h hnt) (init progs) Reachable.init σ
+    (by simpa [init] using hfair)
+  refine ⟨n, fun m hm => ?_⟩
+  have := runN_terminal_stable hn (m - n)
+  rw [show n + (m - n) = m by omega] at this
+  rw [this]; exact hn
+
+/-- the classic crossing: A `with gs 0: with gs 1`, B `with gs 1: with gs 0` — cyclic static lock order, not `Hier` for any rank -/
+def crossProgs : List (List (List Instr)) :=
+  [[[.getSet 0 (.ok 1), .getSet 1 (.ok 2), .exit, .exit]], [[.getSet 1 (.ok 3), .getSet 0 (.ok 4), .exit, .exit]]]
+
+/-- collision-freeness is necessary: keys 0,1 share slot 0 and keys 2,3 share slot 1; A reads 0 and wants to populate 3,
+B reads 2 and wants to populate 1 (every caller `WellNested`, get_set only) -/
+def collIdx : Nat → Nat := fun k => k / 2
+def collProgs : List (List (List Instr)) :=
+  [[[.getSet 0 (.ok 1), .getSet 3 (.ok 2)]], [[.getSet 2 (.ok 3), .getSet 1 (.ok 4)]]]
+def collSched : List Nat := List.replicate 11 0 ++ List.replicate 11 1 ++ [0, 0, 0, 0, 1, 1, 1, 1]
+
+theorem getset_only_collision_counterexample' :
+    (∀ p ∈ collProgs, GetSetOnly p = true ∧ WellNested collIdx p = true) ∧ CollisionFree collIdx collProgs = false ∧
+    (run collIdx (init collProgs) collSched).1.deadlocked collIdx = true ∧
+    waitsFor collIdx (run collIdx (init collProgs) collSched).1 0 1 = true ∧
+    waitsFor collIdx (run collIdx (init collProgs) collSched).1 1 0 = true := by
+  refine ⟨by decide, by decide, by decide, by decide, by decide⟩
+
+/-- the crossing programs under the schedule that lets both enter their first key and then miss / hit the other one:
+the instrumented run ends with everybody terminal, stamps consistent -/
+theorem ghost_example' :
+    (∀ p ∈ crossProgs, GetSetOnly p = true) ∧ CollisionFree id crossProgs = true ∧ (∀ ord : Nat → Nat, ¬ (∀ p ∈ crossProgs, Hier ord p = true)) ∧
+    (grun id (ginit crossProgs) (List.replicate 11 0 ++ List.replicate 11 1 ++ List.replicate 12 0 ++ List.replicate 12 1)).base.allTerminal = true ∧
+    (grun id (ginit crossProgs) (List.replicate 11 0 ++ List.replicate 11 1 ++ [0, 0, 0, 1, 1, 1])).stampsOK [0, 1] = true := by
+  refine ⟨by decide, by decide, ?_, by decide, by decide⟩
+  intro ord h
+  have h0 := h _ (List.mem_cons_self ..)
+  have h1 := h _ (List.mem_cons_of_mem _ (List.mem_cons_self ..))
+  simp [Hier, segOk, hierOk] at h0 h1
+  omega
+
+
+/-! ### Phase 5: writer progress in the file-level system -/
+
+/-- the writer invariant of the file-level system: while a successful getter's entry is being written its file is open with a
+prefix of the entry's chunks, or already closed with all of them -/
+def WInv (enc : Nat → List Nat) (s : DSt) : Prop :=
+  ∀ (j : Nat) (c : Caller) (k v : Nat), s.base.cs[j]? = some c → c.pc = .gsPopW k (.ok v) →
+    (∃ w, s.file k = .opened w ∧ w.isPrefixOf (enc v) = true) ∨ s.file k = .closed (enc v)
+
+/-- a base step touches only the file of a key whose write lock the stepping caller holds -/
+theorem lstep_file_frame {idx arr cache c ev a' ch' c'} (h : LStep idx arr cache c ev a' ch' c') (file : Nat → FileSt) (k : Nat)
+    (hk : c.pc.writeKey ≠ some k) : fileAfter file ev k = file k := by
+  cases h
+  all_goals (first | rfl | (simp [Pc.writeKey] at hk; simp [fileAfter, upd]; intro h; exact absurd h.symm hk))
+
+theorem winv_step {enc : Nat → List Nat} {idx : Nat → Nat} {s s' : DSt} {i : Nat} {a : DAct} {ev : DEv}
+    (hI : Inv idx s.base) (hW : WInv enc s) (hs : dstep enc idx s i a = some (ev, s')) : WInv enc s' := by
+  by_cases ha : a = .base
+  · subst ha
+    obtain ⟨e, b', hb, hok, rfl, rfl⟩ := dstep_base_facts hs
+    obtain ⟨c, a', ch', c', hi, hL, rfl⟩ := step_lstep hI hb
+    intro j d k v hj hpc
+    simp only at hj ⊢
+    rcases getElem?_set_cases hj with ⟨rfl, rfl⟩ | ⟨hne, hj0⟩
+    · have := (lstep_popW hL).1 k _ hpc
+      subst this
+      exact Or.inl ⟨[], by simp [fileAfter, upd], by simp [List.isPrefixOf]⟩
+    · have hx := writer_excl hI.locks hj0 (k := k) (by simp [hpc, Pc.writeKey])
+      have hne' : c.pc.writeKey ≠ some k := by
+        intro hw
+        exact ((hx.2 i c (fun e => hne e.symm) hi).2 k hw) rfl
+      rw [lstep_file_frame hL s.file k hne']
+      exact hW j d k v hj0 hpc
+  · obtain ⟨c, k0, g, w, f', hi, hpc0, hf, rfl, hcase⟩ := dstep_write_facts ha hs
+    intro j d k v hj hpc
+    simp only at hj ⊢
+    by_cases hk : k = k0
+    · subst hk
+      have hji : j = i := by
+        refine Classical.byContradiction (fun hne => ?_)
+        have hx := writer_excl hI.locks hj (k := k) (by simp [hpc, Pc.writeKey])
+        exact ((hx.2 i c (fun e => hne e.symm) hi).2 k (by simp [hpc0, Pc.writeKey])) rfl
+      subst hji
+      rw [hi] at hj; cases hj
+      rw [hpc0] at hpc; cases hpc
+      simp only [upd, if_true]
+      rcases hcase with ⟨b, _, _, hok, rfl⟩ | ⟨_, _, hok, rfl⟩
+      · exact Or.inl ⟨_, rfl, by simpa [chunkOk] using hok⟩
+      · right; simp [closeOk] at hok; rw [hok]
+    · simp only [upd, hk, if_false]
+      exact hW j d k v hj hpc
+
+theorem winv_reachable {enc : Nat → List Nat} {idx : Nat → Nat} {progs : List (List (List Instr))} {s : DSt}
+    (h : DReachable enc idx progs s) : WInv enc s := by
+  induction h with
+  | init =>
+    intro j c k v hj hpc
+    have := List.mem_of_getElem? hj
+    simp [dinit, init] at this
+    obtain ⟨p, _, rfl⟩ := this
+    simp [mkCaller, mkCallerT] at hpc
+  | step hr hs ih => exact winv_step (inv_reachable (dreachable_base hr)) ih hs
+
+theorem prefix_next {w l : List Nat} (h : w.isPrefixOf l = true) (hne : w ≠ l) : ∃ b, (w ++ [b]).isPrefixOf l = true := by
+  rw [List.isPrefixOf_iff_prefix] at h
+  obtain ⟨t, rfl⟩ := h
+  cases t with
+  | nil => simp at hne
+  | cons b t' => exact ⟨b, by rw [List.isPrefixOf_iff_prefix]; exact ⟨t', by simp⟩⟩
+
+/-- goal 2: the writer of an entry always has an enabled step — the next chunk, the close, or the return / the failure -/
+theorem writer_progress' {enc : Nat → List Nat} {idx : Nat → Nat} {progs : List (List (List Instr))} {s : DSt}
+    {i : Nat} {c : Caller} {k : Nat} {g : Getter} (h : DReachable enc idx progs s)
+    (hi : s.base.cs[i]? = some c) (hpc : c.pc = .gsPopW k g) :
+    ∃ a ev s', dstep enc idx s i a = some (ev, s') ∧ (∀ e o, ev = .base e o → e ≠ .spin) := by
+  rcases c with ⟨pc, cur, rest, stack, book, tn⟩
+  simp only at hpc; subst hpc
+  cases g with
+  | fail =>
+    refine ⟨.base, _, _, by simp [dstep, step, hi, stepC, baseOk]; exact ⟨rfl, rfl⟩, ?_⟩
+    intro e o he; simp at he; rw [← he.1]; simp
+  | ok v =>
+    rcases winv_reachable h i _ k v hi rfl with ⟨w, hf, hp⟩ | hf
+    · by_cases hw : w = enc v
+      · refine ⟨.close, _, _, by simp [dstep, hi, hf, closeOk, hw]; exact ⟨rfl, rfl⟩, by simp⟩
+      · obtain ⟨b, hb⟩ := prefix_next hp hw
+        refine ⟨.chunk b, _, _, by simp [dstep, hi, hf, chunkOk, hb]; exact ⟨rfl, rfl⟩, by simp⟩
+    · refine ⟨.base, _, _, by simp [dstep, step, hi, stepC, baseOk, hf]; exact ⟨rfl, rfl⟩, ?_⟩
+      intro e o he; simp at he; rw [← he.1]; simp
+
+
+theorem lstep_baseOk {idx arr cache c ev a' ch' c'} (h : LStep idx arr cache c ev a' ch' c') (enc : Nat → List Nat)
+    (file : Nat → FileSt) (hpc : ∀ k g, c.pc ≠ .gsPopW k g) : baseOk enc file ev = true := by
+  cases h
+  all_goals (first | rfl | (exfalso; exact hpc _ _ rfl))
+
+/-- a base step of a caller that is not the writer of an entry is a step of the file-level system too -/
+theorem dstep_of_step {enc : Nat → List Nat} {idx : Nat → Nat} {s : DSt} {i : Nat} {ev : Ev} {b' : St} {c : Caller}
+    (hI : Inv idx s.base) (hi : s.base.cs[i]? = some c) (hpc : ∀ k g, c.pc ≠ .gsPopW k g)
+    (hb : step idx s.base i = some (ev, b')) :
+    dstep enc idx s i .base = some (.base ev (obsOf s.file ev), { base := b', file := fileAfter s.file ev }) := by
+  obtain ⟨c0, a', ch', c', hi0, hL, rfl⟩ := step_lstep hI hb
+  rw [hi] at hi0; cases hi0
+  simp [dstep, hb, lstep_baseOk hL enc s.file hpc]
+
+theorem pc_popW_dec (c : Caller) : (∃ k g, c.pc = .gsPopW k g) ∨ (∀ k g, c.pc ≠ .gsPopW k g) := by
+  rcases c with ⟨pc, cur, rest, stack, book, tn⟩
+  cases pc <;> simp
+
+/-- nobody is ever stuck in the file-level system: every unfinished caller has an enabled action -/
+theorem chunked_no_caller_stuck' {enc : Nat → List Nat} {idx : Nat → Nat} {progs : List (List (List Instr))} {s : DSt}
+    {i : Nat} {c : Caller} (h : DReachable enc idx progs s) (hi : s.base.cs[i]? = some c) (hnt : c.terminal = false) :
+    ∃ a ev s', dstep enc idx s i a = some (ev, s') := by
+  have hI := inv_reachable (dreachable_base h)
+  rcases pc_popW_dec c with ⟨k, g, hpc⟩ | hpc
+  · obtain ⟨a, ev, s', hs, _⟩ := writer_progress' h hi hpc
+    exact ⟨a, ev, s', hs⟩
+  · have hsome := no_stuck_core hI hi hnt
+    cases hb : step idx s.base i with
+    | none => simp [hb] at hsome
+    | some r => obtain ⟨ev, b'⟩ := r; exact ⟨.base, _, _, dstep_of_step hI hi hpc hb⟩
+
+/-- deadlock freedom lifts from the lock protocol to the file-level system: an enabled non-spin protocol step is either a
+step of the file-level system as it is, or its caller is a writer, which always has a chunk / close / return step -/
+theorem chunked_deadlock_free_core {enc : Nat → List Nat} {idx : Nat → Nat} {progs : List (List (List Instr))} {s : DSt}
+    (h : DReachable enc idx progs s) (hstep : ∃ i ev s', step idx s.base i = some (ev, s') ∧ ev ≠ .spin) :
+    ∃ i a ev s', dstep enc idx s i a = some (ev, s') ∧ (∀ e o, ev = .base e o → e ≠ .spin) := by
+  have hI := inv_reachable (dreachable_base h)
+  obtain ⟨i, ev, b', hb, hne⟩ := hstep
+  obtain ⟨c, _, _, _, hi, _, _⟩ := step_lstep hI hb
+  rcases pc_popW_dec c with ⟨k, g, hpc⟩ | hpc
+  · obtain ⟨a, ev', s', hs, hns⟩ := writer_progress' h hi hpc
+    exact ⟨i, a, ev', s', hs, hns⟩
+  · refine ⟨i, .base, _, _, dstep_of_step hI hi hpc hb, ?_⟩
+    intro e o he; simp at he; rw [← he.1]; exact hne
+
+theorem chunked_deadlock_free' {enc : Nat → List Nat} {idx ord : Nat → Nat} {progs : List (List (List Instr))} {s : DSt}
+    (hord : ∀ a b, idx a = idx b → ord a = ord b) (hH : ∀ p ∈ progs, Hier ord p = true)
+    (h : DReachable enc idx progs s) (hnt : s.base.allTerminal = false) :
+    ∃ i a ev s', dstep enc idx s i a = some (ev, s') ∧ (∀ e o, ev = .base e o → e ≠ .spin) :=
+  chunked_deadlock_free_core h (deadlock_free_ranked' hord hH (dreachable_base h) hnt)
+
+theorem chunked_deadlock_free_getset_only' {enc : Nat → List Nat} {idx : Nat → Nat} {progs : List (List (List Instr))} {s : DSt}
+    (hcf : CollisionFree idx progs = true) (hP : ∀ p ∈ progs, GetSetOnly p = true)
+    (h : DReachable enc idx progs s) (hnt : s.base.allTerminal = false) :
+    ∃ i a ev s', dstep enc idx s i a = some (ev, s') ∧ (∀ e o, ev = .base e o → e ≠ .spin) :=
+  chunked_deadlock_free_core h (deadlock_free_getset_only_step' hcf hP (dreachable_base h) hnt)
+
+theorem prefix_length {w l : List Nat} (h : w.isPrefixOf l = true) : w.length ≤ l.length := by
+  rw [List.isPrefixOf_iff_prefix] at h
+  exact h.length_le
+
+/-- the variant of the file-level system: a protocol step that is not a failed guard decreases `St.measure`; a chunk / close
+step leaves the protocol state alone and, for a successful getter, decreases what is left to write -/
+theorem chunked_progress_bounded' {enc : Nat → List Nat} {idx : Nat → Nat} {progs : List (List (List Instr))} {s s' : DSt}
+    {i : Nat} {a : DAct} {ev : DEv} (h : DReachable enc idx progs s) (hs : dstep enc idx s i a = some (ev, s')) :
+    (∀ e o, ev = .base e o → e ≠ .spin → s'.base.measure < s.base.measure) ∧
+    (a ≠ .base → s'.base = s.base ∧
+      ∀ c k v, s.base.cs[i]? = some c → c.pc = .gsPopW k (.ok v) → writeLeft enc s' i < writeLeft enc s i) := by
+  have hI := inv_reachable (dreachable_base h)
+  constructor
+  · intro e o he hne
+    cases a with
+    | base =>
+      obtain ⟨e', b', hb, _, rfl, rfl⟩ := dstep_base_facts hs
+      simp at he; obtain ⟨rfl, _⟩ := he
+      exact (progress_core hI hb).1 hne
+    | chunk b => obtain ⟨_, _, _, _, _, _, _, _, _, hc⟩ := dstep_write_facts (by simp) hs; rcases hc with ⟨_, _, rfl, _⟩ | ⟨_, rfl, _⟩ <;> simp at he
+    | close => obtain ⟨_, _, _, _, _, _, _, _, _, hc⟩ := dstep_write_facts (by simp) hs; rcases hc with ⟨_, _, rfl, _⟩ | ⟨_, rfl, _⟩ <;> simp at he
+  · intro ha
+    obtain ⟨c, k, g, w, f', hi, hpc, hf, rfl, hcase⟩ := dstep_write_facts ha hs
+    refine ⟨rfl, ?_⟩
+    intro c0 k0 v hi0 hpc0
+    rw [hi] at hi0; cases hi0
+    rw [hpc] at hpc0; cases hpc0
+    simp only [writeLeft, hi, hpc, hf, upd, if_true]
+    rcases hcase with ⟨b, _, _, hok, rfl⟩ | ⟨_, _, hok, rfl⟩
+    · have := prefix_length (by simpa [chunkOk] using hok : (w ++ [b]).isPrefixOf (enc v) = true)
+      simp at this ⊢; omega
+    · simp [closeOk] at hok; subst hok; simp
+
+
 /-! ### translator obligations: constants extracted from the current source = the model's -/
 theorem generated_consts_match' :
     Generated.openmlPermits = modelPermits ∧ Generated.digestBytes = modelDigestBytes ∧ Generated.lockTableSize = modelSlots ∧
     256 ^ Generated.digestBytes ≤ Generated.lockTableSize ∧ 1 ≤ Generated.openmlPermits := by decide
+
+
+/-! ### translator obligations (phase 5): call order and lock blocks of ConcurrentCacher as extracted from the current source -/
+theorem generated_call_order' :
+    (∀ in1 in2 fails, Generated.getSetPath in1 in2 fails = modelGetSetPath in1 in2 fails) ∧
+    (∀ inSelf fails, Generated.rmvPath inSelf fails = modelRmvPath inSelf fails) ∧ Generated.protocolExtracted = true := by
+  refine ⟨?_, ?_, rfl⟩
+  · intro a b c; cases a <;> cases b <;> cases c <;> decide
+  · intro a b; cases a <;> cases b <;> decide
+
+/-- the five lock blocks of `stepC` are the extracted ones: guard and updates of `_array[index]` and `_locks[(thread,key)]` -/
+theorem generated_lock_blocks' (idx : Nat → Nat) (arr : Nat → Int) (cache : Nat → Option Nat)
+    (k : Nat) (g : Getter) (v : Nat) (cur : List Instr) (rest : List (List Instr)) (stack : List Nat) (book : Nat → Int) (tn : Bool) :
+    stepC idx arr cache ⟨.gsAcqR k g, cur, rest, stack, book, tn⟩ =
+      (if guardHolds Generated.acqReadGuard (arr (idx k)) then
+        some (.acqR k, upd arr (idx k) (applyUpd Generated.acqReadArray (arr (idx k))), cache,
+              ⟨.gsChk1 k g, cur, rest, stack, upd book k (applyUpd Generated.acqReadLocks (book k)), tn⟩)
+       else some (.spin, arr, cache, ⟨.gsAcqR k g, cur, rest, stack, book, tn⟩)) ∧
+    (guardHolds Generated.acqWriteGuard (arr (idx k)) = true →
+      stepC idx arr cache ⟨.gsAcqW k g, cur, rest, stack, book, tn⟩ =
+        some (.acqW k, upd arr (idx k) (applyUpd Generated.acqWriteArray (arr (idx k))), cache,
+              ⟨.gsChk2 k g, cur, rest, stack, upd book k (applyUpd Generated.acqWriteLocks (book k)), tn⟩)) ∧
+    (guardHolds Generated.acqWriteGuard (arr (idx k)) = false → tn = false →
+      stepC idx arr cache ⟨.gsAcqW k g, cur, rest, stack, book, tn⟩ = some (.spin, arr, cache, ⟨.gsAcqW k g, cur, rest, stack, book, tn⟩)) ∧
+    stepC idx arr cache ⟨.gsSwB k v, cur, rest, stack, book, tn⟩ =
+      some (.sw k, upd arr (idx k) (applyUpd Generated.switchArray (arr (idx k))), cache,
+            ⟨.gsEnter k v, cur, rest, stack, upd book k (applyUpd Generated.switchLocks (book k)), tn⟩) ∧
+    stepC idx arr cache ⟨.rmRelW k, cur, rest, stack, book, tn⟩ =
+      some (.relW k, upd arr (idx k) (applyUpd Generated.relWriteArray (arr (idx k))), cache,
+            ⟨.idle, cur, rest, stack, upd book k (applyUpd Generated.relWriteLocks (book k)), tn⟩) ∧
+    stepC idx arr cache ⟨.exRel, cur, rest, k :: stack, book, tn⟩ =
+      some (.relR k, upd arr (idx k) (applyUpd Generated.relReadArray (arr (idx k))), cache,
+            ⟨.idle, cur, rest, stack, upd book k (applyUpd Generated.relReadLocks (book k)), tn⟩) := by
+  -- the extracted guards / updates, semantically (so `>= 0` and `> -1` in the source are the same obligation)
+  have gR : ∀ x : Int, guardHolds Generated.acqReadGuard x = decide (x ≥ 0) := by
+    intro x; by_cases h : x ≥ 0 <;> simp [guardHolds, Generated.acqReadGuard, h] <;> omega
+  have gW : ∀ x : Int, guardHolds Generated.acqWriteGuard x = decide (x = 0) := by
+    intro x; by_cases h : x = 0 <;> simp [guardHolds, Generated.acqWriteGuard, h] <;> omega
+  have u1 : ∀ x : Int, applyUpd Generated.acqReadArray x = x + 1 ∧ applyUpd Generated.acqReadLocks x = x + 1 := by
+    intro x; simp [applyUpd, Generated.acqReadArray, Generated.acqReadLocks] <;> omega
+  have u2 : ∀ x : Int, applyUpd Generated.relReadArray x = x - 1 ∧ applyUpd Generated.relReadLocks x = x - 1 := by
+    intro x; simp [applyUpd, Generated.relReadArray, Generated.relReadLocks] <;> omega
+  have u3 : ∀ x : Int, applyUpd Generated.acqWriteArray x = -1 ∧ applyUpd Generated.acqWriteLocks x = -1 := by
+    intro x; simp [applyUpd, Generated.acqWriteArray, Generated.acqWriteLocks] <;> omega
+  have u4 : ∀ x : Int, applyUpd Generated.relWriteArray x = 0 ∧ applyUpd Generated.relWriteLocks x = 0 := by
+    intro x; simp [applyUpd, Generated.relWriteArray, Generated.relWriteLocks] <;> omega
+  have u5 : ∀ x : Int, applyUpd Generated.switchArray x = 1 ∧ applyUpd Generated.switchLocks x = 1 := by
+    intro x; simp [applyUpd, Generated.switchArray, Generated.switchLocks] <;> omega
+  refine ⟨?_, ?_, ?_, ?_, ?_, ?_⟩
+  · simp only [gR, (u1 _).1, (u1 _).2]; simp [stepC]
+  · intro h; rw [gW] at h; simp at h
+    simp only [(u3 _).1, (u3 _).2]; simp [stepC, h]
+  · intro h ht; rw [gW] at h; simp at h
+    simp [stepC, h, ht]
+  · simp only [(u5 _).1, (u5 _).2]; simp [stepC]
+  · simp only [(u4 _).1, (u4 _).2]; simp [stepC]
+  · simp only [(u2 _).1, (u2 _).2]; simp [stepC]
+
+/-- round h: file name and lock slot are both functions of the key itself (no normalisation on either side) -/
+theorem generated_key_identity' :
+    Generated.cacheNameKeyExpr = modelCacheNameKeyExpr ∧ Generated.cacheNameSuffix = modelCacheNameSuffix ∧
+    Generated.indexKeyExpr = modelIndexKeyExpr := by decide
 
 end Coba.C19
